@@ -53,3 +53,9 @@ claim('C08', 'exploration', 'bounded-exhaustive history enumeration, one process
       'process, are followed by 11 probe parses into contexts untouched by the history; return code, full tree and diagnostics (file, line, text) must equal the probe\'s result in a fresh process. '
       'Interleavings over two live contexts are compared with solo runs. The property is about orderings of calls over process-global scanner state, which only history enumeration reaches.',
       'Trusts: the probe set as a detector of residual state (start condition, buffer stack, include stack, scratch buffer, errno); the residual states actually reached are listed in the evidence via the LIBCONFUSE_VERIF hook.')
+
+claim('C13', 'exploration', 'flat-vs-include-split differential on the real code over generated file trees, position probes, and an enumerated failure matrix with descriptor/include-depth monitors (ASan+UBSan build)',
+      'Accepted texts are split at item boundaries (also inside section bodies) into random include trees of depth 1..10, addressed relative, absolute or via search path, and must parse to the same tree as the flat text '
+      'with include depth 0 and descriptors balanced afterwards; errors placed after / inside includes must carry the right file and line; 13 kinds of failing include, 12+ in a row, must each be a reported parse error '
+      'without descriptor growth, after which a good include into the same and a new context still works. Randomised differential exploration plus an enumerated failure matrix is the level that fits: the input space is unbounded, the failure kinds are few.',
+      'Trusts: /proc/self/fd counting and the allocmon FILE table as descriptor monitors; no permission-based failures (root).')
